@@ -24,6 +24,7 @@ import (
 
 var tr *vtrace.T
 var rng *rand.Rand
+var hangs int
 
 // ---------------------------------------------------------------- abstract <-> real
 
@@ -238,6 +239,13 @@ func supervised(what string, in []byte, f func()) bool {
 		return true
 	case <-time.After(3 * time.Second):
 		tr.Emit("hang", "what", what, "in", vtrace.Bytes(in))
+		hangs++
+		if hangs >= 3 {
+			// the stalled goroutines keep spinning: stop here, the trace already carries the verdict
+			tr.Close()
+			fmt.Println("aborting after 3 hangs")
+			os.Exit(0)
+		}
 		return false
 	}
 }
